@@ -38,7 +38,7 @@ def main():
     hooks.update(hooks_extra)
     m = {
         "version": 1,
-        "setup_cmd": "cd /verif/coq && coq_makefile -f _CoqProject -o Makefile && make -j12",
+        "setup_cmd": "cd /verif && ./check setup",
         "hooks": hooks,
         "engines": [{"name": "coq-correspondence", "path": "/verif/check", "serves_properties": sorted(frags),
                      "kind_free_text": "Coq 8.16.1 development (coq/) with property theorems in coq/props; harness/ runs hugr-py from /repo's working tree, writes cases_*.v with inputs and observed outputs, Coq evaluates model==implementation (corr) and spec(implementation) (mon) by vm_compute"}],
